@@ -124,7 +124,7 @@ fn main() {
                         "C20" => "C20",
                         _ => "C16",
                     };
-                    replay_text(&checks::tworld::TemplateWorld { prop, world_name: "templates", kinds: vec![], penalty: 0.0, faults: checks::tworld::FaultMix::None, max_iters: (1, 1), evaluations_term: false, log: false, key_steps: &[] }, &text)
+                    replay_text(&checks::tworld::TemplateWorld { prop, world_name: "templates", kinds: vec![], penalty: 0.0, faults: checks::tworld::FaultMix::None, max_iters: (1, 1), evaluations_term: false, log: false, compound_term: false, key_steps: &[] }, &text)
                 }
                 other => {
                     eprintln!("harness error: unknown world {other}");
